@@ -413,6 +413,8 @@ func (g *c20gen) op() c20op {
 	return op
 }
 
+type c20evictPanic struct{}
+
 func c20Run(s *sim.Sim, p *sim.Params) {
 	s.SetLimits(200_000, 50_000)
 	// configuration (swarm: every run draws its own limits, TTL regime and mode)
@@ -439,7 +441,33 @@ func c20Run(s *sim.Sim, p *sim.Params) {
 		concurrent = true
 	}
 
-	hc := NewHTTPCache(DefaultHTTPCacheConfig(), WithCapacity(cfg.capacity), WithMaxSize(cfg.maxSize), WithDefaultTTL(cfg.ttl))
+	// eviction callback: none, one that records what it is told (and takes its time: it is a
+	// scheduling point), or — sequential histories only — one that panics for one key, the caller
+	// recovering as a web server does for a handler
+	evictMode := []int{0, 0, 0, 0, 1, 1, 1, 2}[s.Choose(sim.SWork, 8)]
+	if concurrent && evictMode == 2 {
+		evictMode = 1
+	}
+	var evicted [][2]string
+	opts := []LRUOption{WithCapacity(cfg.capacity), WithMaxSize(cfg.maxSize), WithDefaultTTL(cfg.ttl)}
+	if evictMode > 0 {
+		s.Probe("config:eviction-callback")
+		opts = append(opts, WithOnEvict(func(key string, value interface{}) {
+			v := fmt.Sprint(value)
+			if b, ok := value.([]byte); ok {
+				v = string(b)
+			}
+			evicted = append(evicted, [2]string{key, v})
+			sim.Yield("c20.onEvict")
+			if evictMode == 2 && key == "ab" && s.TaskName() == "main" {
+				// (only on the caller's own goroutine: a panic on the cache's cleanup goroutine
+				// would be the callback's author's problem, nobody could recover it)
+				s.Fault("eviction-callback-panics")
+				panic(c20evictPanic{})
+			}
+		}))
+	}
+	hc := NewHTTPCache(DefaultHTTPCacheConfig(), opts...)
 	c := hc.cache
 	defer c.Close()
 	g := &c20gen{s: s, cfg: cfg, edgeVals: edge, ttls: ttls}
@@ -455,6 +483,7 @@ func c20Run(s *sim.Sim, p *sim.Params) {
 
 	if !concurrent {
 		st := c20state{}
+		afterPanic := false
 		nops := 5 + s.Choose(sim.SWork, 56)
 		for i := 0; i < nops; i++ {
 			if regime >= 2 && s.Choose(sim.SWork, 3) == 0 {
@@ -466,8 +495,27 @@ func c20Run(s *sim.Sim, p *sim.Params) {
 			op := g.op()
 			op.now = int64(s.Now())
 			s.Op(op.String())
-			res := c20apply(c, hc, op)
+			var res c20res
+			panicked := false
+			func() {
+				defer func() {
+					if r := recover(); r != nil {
+						if _, mine := r.(c20evictPanic); !mine {
+							panic(r)
+						}
+						panicked = true
+					}
+				}()
+				res = c20apply(c, hc, op)
+			}()
 			s.Op("")
+			if panicked || afterPanic {
+				// the callback's panic aborted an operation half-way: what the cache holds now is
+				// not specified. What remains specified is that every later operation returns.
+				afterPanic = true
+				sample = append(sample, fmt.Sprintf("%v -> (after the eviction callback panicked: only liveness is judged)", op))
+				continue
+			}
 			sample = append(sample, fmt.Sprintf("%v -> %v", op, res))
 			c20probe(s, cfg, st, op)
 			ok, nst, why := c20step(cfg, st, op, res)
